@@ -11,9 +11,9 @@ Definition Pre_jitunion (args : list value) : Prop :=
     args = [Ar (A1 d1 s1); Ar (A1 d2 e1); Ar (A1 d3 s2); Ar (A1 d4 e2)]
     /\ zlen s1 = zlen e1 /\ zlen s2 = zlen e2.
 
-Definition inv_union (st0 st : store) : Prop :=
+Local Notation inv_union := (fun st0 st : store =>
   0 <= getZ st "i" <= getZ st0 "m" /\ 0 <= getZ st "j" <= getZ st0 "n"
-  /\ 0 <= getZ st "ct" <= getZ st "i" + getZ st "j".
+  /\ 0 <= getZ st "ct" <= getZ st "i" + getZ st "j").
 
 Definition ann_jitunion (l : nat) : annot :=
   match l with
@@ -38,6 +38,5 @@ Theorem k_jitunion_safe : forall args, Pre_jitunion args ->
   forall fuel, safe_outcome (run fuel k_jitunion args).
 Proof.
   intros args (d1 & d2 & d3 & d4 & s1 & e1 & s2 & e2 & -> & H1 & H2) fuel.
-  safe_start k_jitunion ann_jitunion. unfold inv_union. 
-  wp_compute k_jitunion ann_jitunion. vc.
+  safe_start k_jitunion ann_jitunion. vc k_jitunion ann_jitunion.
 Qed.
